@@ -196,7 +196,17 @@ func runC05(c *run.Ctx) {
 					case "[T!]":
 						val = model.VList{cv.v}
 					case "[[T]]":
-						val = model.VList{model.VList{cv.v}, model.VList{}, nil, model.VList{nil, cv.v}}
+						switch vi % 3 {
+						case 0:
+							val = model.VList{model.VList{cv.v}, model.VList{}, nil, model.VList{nil, cv.v}}
+						case 1:
+							val = cv.v // a flat typed slice / scalar where a list of lists is declared
+						default:
+							val = model.VList{cv.v, nil, model.VList{cv.v}} // the value as an INNER list (right for a typed slice of T) next to a proper inner list
+						}
+					}
+					if _, innerIsL := ref.AsList(cv.v); bk == "any" && w == "[[T]]" && ((vi%3 == 2 && !innerIsL) || vi%3 == 1) {
+						continue // the same for a non-list standing where an inner list is declared
 					}
 					if _, isL := ref.AsList(val); bk == "any" && !isL && ft.Nullable().List {
 						// AnyResolver.Len has no error channel: what a root resolver answers for a non-list is the
